@@ -207,7 +207,20 @@ def file_claims(text, v, rec_lengths, tokens):
               'skew_for_agent_1: %s' % float(v.get('skew', 1.0))]
     if mp == 'spa':
         block += ['sum_agent3_lower_quotas: %d' % v.get('llq', 0), 'sum_agent3_targets: %s' % _num(v.get('lt')), 'sum_agent3_upper_quotas: %d' % v['luq']]
-    cl.append(('parameter block', [l for l in tail if l != ''] == [l for l in block if l != ''] and tail[0] == ''))
+    # the block must be separated by a blank line, carry the heading and every documented key with the requested
+    # value (values compared numerically: 0 and 0.0 are the same parameter value)
+    got = [l for l in tail if l != '']
+    want = [l for l in block if l != '']
+    okb = tail[0] == '' and len(got) == len(want) and got[0] == want[0]
+    if okb:
+        for a, b in zip(got[1:], want[1:]):
+            ka, _, va = a.partition(': ')
+            kb, _, vb = b.partition(': ')
+            try:
+                okb = okb and ka == kb and float(va) == float(vb)
+            except ValueError:
+                okb = False
+    cl.append(('parameter block', okb))
     return cl
 
 
